@@ -266,7 +266,7 @@ def run(tier, seed, replay=None, scale=1.0):
         part.sig("replay", 2)
         r.merge(part)
         return r.finish()
-    total = int((40000 if tier == "quick" else 1200000) * scale)
+    total = int((240000 if tier == "quick" else 2400000) * scale)
     nshards = 16 if tier == "quick" else 256
     per = max(1, total // nshards)
     shards = [(seed, i, per, exe) for i in range(nshards)]
